@@ -53,6 +53,8 @@ fn lex(mut input: &str) -> (&str, Vec<RawToken<'_>>) {
         prev_real_token: None,
     };
     while let Some((remaining, token)) = whitespace_and_token(input, &mut lex_state) {
+        #[cfg(feature = "verif")]
+        crate::verif::step();
         tokens.push(to_final_token(token));
         input = remaining;
     }
@@ -672,6 +674,10 @@ fn find_identifier_end_x86_64(input: &str, offset: usize) -> usize {
 }
 
 fn find_identifier_end(input: &str, offset: usize) -> usize {
+    #[cfg(feature = "verif")]
+    if crate::verif::force_scalar_ident_scan() {
+        return find_identifier_end_generic(input, offset);
+    }
     #[cfg(target_arch = "x86_64")]
     {
         find_identifier_end_x86_64(input, offset)
@@ -680,6 +686,21 @@ fn find_identifier_end(input: &str, offset: usize) -> usize {
     {
         find_identifier_end_generic(input, offset)
     }
+}
+
+/// Runs one chosen identifier scanning routine directly, so that a monitor can compare the
+/// routines side by side. Returns `None` if the vectorised routine is not supported here.
+#[cfg(feature = "verif")]
+pub fn verif_identifier_end(input: &str, offset: usize, vectorised: bool) -> Option<usize> {
+    if !vectorised {
+        return Some(find_identifier_end_generic(input, offset));
+    }
+    #[cfg(target_arch = "x86_64")]
+    if is_x86_feature_detected!("avx2") {
+        // SAFETY: we just checked that the required intrinsics are supported.
+        return Some(unsafe { find_identifier_end_avx2(input, offset) });
+    }
+    None
 }
 
 fn count_bytes_in_set(input: &str, offset: usize, set: &[bool; 256]) -> usize {
